@@ -216,7 +216,7 @@ pub struct Rec {
     pub ord: u8,
 }
 
-pub const LOG_CAP: usize = 32;
+pub const LOG_CAP: usize = 64;
 const EMPTY: Rec = Rec { kind: 255, addr: 0, a: 0, b: 0, res: 0, ok: false, ord: 0 };
 pub static mut LOG: [Rec; LOG_CAP] = [EMPTY; LOG_CAP];
 pub static mut LOG_LEN: usize = 0;
